@@ -43,7 +43,7 @@ Proof. intros U5 H. exact (ids_invariant U5 H true (or_intror eq_refl) gen_field
 Definition idh (s : string) : string := s.     (* a collision-free "hash" *)
 Definition fvds : procinfo :=
   {| pi_fqcn := "semantiva.examples.test_utils.FloatValueDataSource"; pi_kind := KSource;
-     pi_required := ["value"]; pi_created := [] |}.
+     pi_required := ["value"]; pi_created := []; pi_suppressed := [] |}.
 Definition wit_vars1 := [("t", VCtx "tk"); ("s", VCtx "sk")].
 Definition wit_vars2 := [("s", VCtx "sk"); ("t", VCtx "tk")].
 Definition wit_a (vars : list (string * vspec)) : config :=
